@@ -227,10 +227,11 @@ def _sweep_scratch():
     except OSError:
         return
     for name in names:
-        m = re.match(r'c\d\d[-_](\d+)', name)
+        # exactly the names the checks give their per-process files (nothing made by tempfile.mkdtemp, whose random part may begin with digits)
+        m = re.match(r'^(?:c0[12]-(\d+)\.dlis|c05-(\d+)-(?:in|out)\.lis|c09-(\d+)(?:\.las)?)$', name)
         if not m:
             continue
-        pid = int(m.group(1))
+        pid = int(next(g for g in m.groups() if g))
         if pid == os.getpid():
             continue
         try:
